@@ -30,7 +30,8 @@ LEVEL_NOTE = ('T-lazy: map, filter, itertools.* pull on demand, at most one '
               'operator adds at most its own look-ahead), not as wholes. '
               'join\'s outer side: pulls[k] is the row that produced '
               'the k-th result (nested loop invariants). '
-              'selectMany, distinct, zip, accumulate are covered by '
+              'distinct, accumulate, selectMany: pulls[k] proved '
+              'against their functional models; zip is covered by '
               'the flow obligation only.')
 
 STREAMING = ['select', 'where', 'select_many', 'skip', 'limit', 'take_while',
@@ -122,6 +123,10 @@ def units(ctx):
            for c in cc.memorize_contracts()]
     us += [contract_unit(c, world_setup=cc.setup_mem)
            for c in cc.join_contracts()]
+    # distinct / accumulate / selectMany: pulls[k] against the functional
+    # model (first occurrences; running folds; the row that produced it)
+    us += [contract_unit(c, world_setup=cc.setup_functional)
+           for c in cc.functional_contracts()]
     us += pyvc_units(utils.contracts(), 'C14', utils.setup)
     us += pyvc_units(yaqltypes.contracts(), 'C14', yaqltypes.setup)
     from contracts import utils as _ut
